@@ -22,6 +22,11 @@ DERIVES = {'Clone', 'Debug', 'PartialEq', 'Eq', 'Hash', 'Default'}
 def run(ck):
     if getattr(ck, 'depth', 0) >= 2:
         return      # a shared run of a shared run: nothing of it is selected, and mutual sharing must end somewhere
+    _run(ck)
+    _shares(ck)
+
+
+def _run(ck):
     F = ck.facts
     L = F.lib
     ck.explanation = (
@@ -337,3 +342,19 @@ def run(ck):
                       'confine_children(..) dominates the construction' if ok else
                       '%s is built on a path that does not call confine_children(): nested objects are dropped silently but stay referable' % short(d), fn=path)
     ck.floor('R10.5', n_k, 3, 'constructions of childless element kinds')
+
+
+def _shares(ck):
+    """obligations of other checks that the clauses of C10 rest on (same facts)."""
+    import core as _core
+    import rules.c04 as c04
+    s4 = _core.Shared(ck, 'R10.2', lambda r, k: r == 'R4.6' or (r == 'R4.4' and k in ('only-error-free-builds-continue', 'guard-tests-the-build-diagnostics')), 'C04:',
+                      ' [a duplicate id is rejected by an error diagnostic: the document is refused only if has_error() sees it]')
+    c04.run(s4)
+    ck.floor('R10.2', s4.count, 3, 'shared C04 R4.4 / R4.6 obligations')
+    import rules.c05 as c05
+    s5 = _core.Shared(ck, 'R10.5', lambda r, k: r == 'R5.7' or (r == 'R5.6' and k.startswith(('return-type-verified', 'verify_code_return_type-shape'))) or
+                      (r == 'R5.1' and k.startswith('is_assignable|') and ('*' in k)), 'C05:',
+                      ' [an object reference in generated code has a class compatible with its use only if every return of the binding is checked against the property type]')
+    c05.run(s5)
+    ck.floor('R10.5', s5.count, 20, 'shared C05 obligations on object-typed results')
